@@ -47,6 +47,8 @@ TEMPLATES = [
     fn("zweites_von", [("a", GT, False), ("b", G("R"), False)], G("R"), [RET(ident("b"))]),
     fn("laengen_summe", [("l", TL(GT), False), ("m", TL(G("R")), False)], TZ, [RET(bin_("plus", un("len", ident("l")), un("len", ident("m"))))]),
     fn("vertausche_in", [("a", GT, True), ("b", G("R"), False), ("c", GT, False)], G("R"), [setv(lvid("a"), ident("c")), RET(ident("b"))]),
+    # an alias with a negation marker: "kommt_vor x in l" / "kommt_vor x nicht in l" (the second is the negation of the first)
+    fn("kommt_vor", [("x", GT, False), ("l", TL(GT), False)], TW, [{"k": "foreach", "v": "e", "t": GT, "idx": "", "in": ident("l"), "body": [if_(bin_("eq", ident("e"), ident("x")), [RET(lit(W(True)))])]}, RET(lit(W(False)))]),
     fn("vorgabe", [("x", GT, False)], GT, [var("d", GT, {"k": "std", "t": GT}, False), RET(ident("d"))]),
 ]
 # a generic body that names a type of its own module: the alias Wert (= Kommazahl) is private to the declaring module,
@@ -63,6 +65,9 @@ VALUES = {  # type enc -> (type, [value exprs])
     "Z": (TZ, [zl(7), zl(-1)]), "T": (TT, [lit(T("ö€")), lit(T(""))]), "W": (TW, [lit(W(True)), lit(W(False))]), "C": (TC, [lit(C("x")), lit(C("😀"))]), "K": (TK, [lit(K(3, 1)), lit(K(-9, 2))]),
     "LZ": (TL(TZ), [lit(L(TZ, [Z(1), Z(2)])), lit(L(TZ, []))]), "Paar": (TS("Paar"), [semgen.new("Paar", zahl=zl(3), wort=lit(T("drei"))), semgen.new("Paar", zahl=zl(4), wort=lit(T("vier")))]),
 }
+
+
+ddp.ALIAS_FORMS["kommt_vor"] = "{name} <x> <!nicht> in <l>"
 
 
 def gcall(name, binding, args):
@@ -93,6 +98,9 @@ def cases(tier, rng):
             cs.append(Case("gen:erstes:%s" % enc, gcall("erstes", b, [("l", ident("gl"))]), t, sl))
             cs.append(Case("gen:laenge_von:%s" % enc, gcall("laenge_von", b, [("l", ident("gl"))]), TZ, sl))
             cs.append(Case("gen:letztes:%s" % enc, gcall("letztes", b, [("l", ident("gl")), ("n", zl(1))]), t, sl))
+            cs.append(Case("gen:kommt_vor:ja:%s" % enc, gcall("kommt_vor", b, [("x", v2), ("l", ident("gl"))]), TW, sl))
+            cs.append(Case("gen:kommt_vor:nicht:%s" % enc, {"k": "un", "op": "not", "via_alias": True, "r": gcall("kommt_vor", b, [("x", v2), ("l", ident("gl"))])}, TW, sl))
+            cs.append(Case("gen:kommt_vor:nicht-nein:%s" % enc, {"k": "un", "op": "not", "via_alias": True, "r": gcall("kommt_vor", b, [("x", a), ("l", {"k": "list", "et": t, "vals": [v2]})])}, TW))
             cs.append(Case("gen:enthaelt:%s" % enc, gcall("enthaelt", b, [("l", ident("gl")), ("x", v2)]), TW, sl))
             # a by-value list parameter written by the generic callee: the caller's list must be unchanged
             su2 = sl + [var("gr", TL(t), gcall("ersetze_erstes", b, [("l", ident("gl")), ("x", v2)]), False)]
